@@ -418,10 +418,9 @@ def term_to_py(t):
             return term_to_py(t.arg(0))
         if d == 'PBytes':
             return term_to_py(t.arg(0)).encode('latin-1', 'replace')
-        if d == 'PTuple':
-            return tuple(seq_to_py(t.arg(0)))
-        if d == 'PList':
-            return list(seq_to_py(t.arg(0)))
+        if d == 'PSeq':
+            items = seq_to_py(t.arg(1))
+            return list(items) if z3.is_true(z3.simplify(t.arg(0))) else tuple(items)
         if d == 'PDict':
             keys = seq_to_py(t.arg(0))
             return {'<dict>': [repr(k) for k in keys], 'vals': str(t.arg(1))[:200]}
